@@ -15,3 +15,8 @@ import Tumfl.Props.C04Faithful
 #print axioms Tumfl.Props.C04_faithful
 #print axioms Tumfl.Props.C12_error_designates
 #print axioms Tumfl.Props.C12_tree_is_files
+#print axioms Tumfl.Props.C12_complete
+#print axioms Tumfl.Props.C12_offending_never_ok
+#print axioms Tumfl.Props.C12_dependency_error_stable
+#print axioms Tumfl.Props.C12_complete_parses
+#print axioms Tumfl.Props.C12_complete_example
